@@ -1274,7 +1274,9 @@ def stream_forward(ctx, reqs, metas):
 
 
 def stream_pyaccepts(ctx, reqs, metas):
-    """`pyAccepts` (the Python side of kwforward_accepts_iff) against real calls"""
+    """`pyAccepts`, `pyRunsKwWrapper`, `kwForwarded` (the Python side of kwforward_accepts_iff_partial)
+    against real calls of the definition, of a real **kwargs wrapper around it, and of a definition
+    with the forwarded parameter list"""
     rng = ctx.subrng('pyaccepts')
     shs = shapes(4)
     for _ in range(ctx.size(400, 10000)):
@@ -1287,11 +1289,16 @@ def stream_pyaccepts(ctx, reqs, metas):
         kws = [k for k in pool if rng.random() < 0.35]
         if rng.random() < 0.5:
             kws = list(dict.fromkeys(kws + required))
-        try:
-            obj(*([0] * npos), **{k: 0 for k in kws})
-            want = True
-        except TypeError:
-            want = False
+        wrap, _ = exec_def('def g(%s): pass\ndef f(**kwargs):\n    return g(**kwargs)\n' % sig_text(sig), 'f')
+        fw = {'po': [], 'pk': [], 'vp': None, 'ko': sig['pk'] + sig['ko'], 'vk': sig['vk']}
+        fobj, _ = exec_def('def f(%s): pass\n' % sig_text(fw), 'f')
+        want = {}
+        for key, o in (('accepts', obj), ('wrapper_runs', wrap), ('forwarded_accepts', fobj)):
+            try:
+                o(*([0] * npos), **{k: 0 for k in kws})
+                want[key] = True
+            except TypeError:
+                want[key] = False
         reqs.append({'op': 'pyaccepts', 'sig': sig, 'npos': npos, 'kws': kws})
         metas.append(('pyaccepts', {'def': 'def f(%s)' % sig_text(sig), 'npos': npos, 'kws': kws}, want))
 
@@ -1364,7 +1371,7 @@ def run(ctx):
                                    short({'case': meta, 'impl': [real['params'], real['to_string']], 'model': ans}, 1500))
             elif stream == 'pyaccepts':
                 ctx.count('pyaccepts', json.dumps(meta, sort_keys=True), nontrivial=True,
-                          bucket='npos=%d/%s' % (meta['npos'], 'accepted' if extra else 'TypeError'),
+                          bucket='npos=%d/%s' % (meta['npos'], 'accepted' if extra['accepts'] else 'TypeError'),
                           sample={'case': meta, 'cpython': extra})
                 if ans != extra:
                     raise common.InfraError('pyAccepts disagrees with CPython: %r model=%r cpython=%r' % (meta, ans, extra))
